@@ -90,6 +90,50 @@ class LRestr(LNode):
     tag: str = field(default="", compare=False)
 
 
+# ---- falsy nodes: truthiness of a node must never matter to the library
+
+@dataclass
+class LFLeaf(LLeaf):
+    """a leaf that is False in a boolean context"""
+
+    def __bool__(self) -> bool:
+        return False
+
+
+@dataclass
+class LFUn(LNode):
+    """an inner node (required child) that is False in a boolean context"""
+
+    arg: LNode = None  # type: ignore[assignment]
+    v: int = 0
+    tag: str = field(default="", compare=False)
+
+    def __bool__(self) -> bool:
+        return False
+
+
+@dataclass
+class LFTup(LNode):
+    """container-like: len(node) is the number of items, so an empty one is falsy"""
+
+    items: tuple[LNode, ...] = ()
+    v: int = 0
+    tag: str = field(default="", compare=False)
+
+    def __len__(self) -> int:
+        return len(self.items)
+
+
+@dataclass
+class LFLst(LNode):
+    items: list[LNode] = field(default_factory=list)
+    v: int = 0
+    tag: str = field(default="", compare=False)
+
+    def __len__(self) -> int:
+        return len(self.items)
+
+
 # kind: one (required) | opt | tup | lst ;  allowed = class names accepted by issubclass in replace_with
 CLASSES: dict[str, dict] = {
     "LLeaf": {"cls": LLeaf, "mro": ["LLeaf", "LNode"], "fields": []},
@@ -103,6 +147,10 @@ CLASSES: dict[str, dict] = {
     "LMixed": {"cls": LMixed, "mro": ["LMixed", "LNode"],
                "fields": [("z", "one", ["LNode"]), ("items", "tup", ["LNode"]), ("a", "opt", ["LNode"]),
                           ("xs", "lst", ["LNode"])]},
+    "LFLeaf": {"cls": LFLeaf, "mro": ["LFLeaf", "LLeaf", "LNode"], "fields": []},
+    "LFUn": {"cls": LFUn, "mro": ["LFUn", "LNode"], "fields": [("arg", "one", ["LNode"])]},
+    "LFTup": {"cls": LFTup, "mro": ["LFTup", "LNode"], "fields": [("items", "tup", ["LNode"])]},
+    "LFLst": {"cls": LFLst, "mro": ["LFLst", "LNode"], "fields": [("items", "lst", ["LNode"])]},
     "LRestr": {"cls": LRestr, "mro": ["LRestr", "LNode"],
                "fields": [("r", "one", ["LLeaf"]), ("c", "opt", ["LLeaf", "LUn"]), ("rs", "tup", ["LLeaf"])]},
 }
